@@ -108,6 +108,14 @@ def run_op(run, op):
         y = run.pick(j)
         if is_monoidal(y) and len(x.cod) + len(y.cod) <= 7:
             run.add(x @ y, "tensor")
+            # several operands at once, the receiver first or an identity
+            z = run.pick(args[3])
+            if is_monoidal(z) and len(x.cod) + len(y.cod) + len(z.cod) <= 7\
+                    and len(x) + len(y) + len(z) <= 14:
+                run.add(x.tensor(y, z), "{}.tensor({}, {})".format(
+                    common.show(x), common.show(y), common.show(z)))
+                run.add(x.id(x.dom[:0]).tensor(x, y, z), "Id().tensor(...)")
+                run.add(x.tensor(), "tensor()")
     elif name == "dagger" and cls not in NO_DAGGER:
         # boxes that define no dagger (closed-structure rules, bubbles)
         if any(type(b).__name__ in ("FA", "BA", "FC", "BC", "FX", "BX",
